@@ -305,6 +305,73 @@ func engineCaseInvCLI(ctx *Ctx) {
 				ctx.R.Path("cli-homes-with-a-special-casing-locale", 1)
 			}
 		}
+		comparePair := func(q, q2, kind string, limit int) {
+			mk := func(query string) []string {
+				return []string{"--database", dbp, "--format", "json", "-v", "--no-color", "--limit", fmt.Sprint(limit), "--all-platforms", "--", query}
+			}
+			cs := map[string]interface{}{"db_entries": len(cmds), "query": q, "variant": q2, "kind": kind, "limit": limit, "env": locEnv}
+			ctx.R.Begin(cs)
+			ctx.R.Eval(1)
+			rank := func(query string) (vlib.Ranked, string, bool) {
+				res := h.Wtf(ctx.Wtf, locEnv, mk(query)...)
+				if bad, why := res.Crashed(); bad {
+					ctx.R.Violate(vlib.Violation{Property: "C20", Clause: "crash", Path: "cli", Detail: why, Witness: cs})
+					return nil, "", false
+				}
+				block, items, present, wf := JSONBlock(res.Stdout)
+				if present && !wf {
+					return nil, block, false
+				}
+				rk := vlib.Ranked{}
+				for _, it := range items {
+					i, ok := idx[it.Command]
+					if !ok {
+						i = -1
+					}
+					rk = append(rk, vlib.Item{Idx: i, Score: it.Score})
+				}
+				return rk, block, true
+			}
+			var refs []vlib.Ranked
+			stable := true
+			okAll := true
+			for i := 0; i < 3; i++ {
+				a, _, ok := rank(q)
+				if !ok {
+					okAll = false
+					break
+				}
+				if i > 0 && !vlib.Exact(refs[0], a) {
+					stable = false
+				}
+				refs = append(refs, a)
+			}
+			if !okAll {
+				return
+			}
+			b, _, ok := rank(q2)
+			if !ok {
+				return
+			}
+			if len(refs[0]) > 0 {
+				ctx.R.Nontriv("cli", d, q, q2, limit)
+				ctx.R.Path("cli-pairs-nonempty", 1)
+				if kind != "case" {
+					ctx.R.Path("cli-pairs-blanks", 1)
+				}
+			} else {
+				ctx.R.Path("cli-pairs-empty", 1)
+			}
+			verdict, why := vlib.CompareToRef(refs, stable, b, limit)
+			switch verdict {
+			case "violated":
+				ctx.R.Violate(vlib.Violation{Property: "C20", Clause: "cli-variant-changes-output", Path: "cli/" + kind,
+					Detail:  fmt.Sprintf("result blocks for %s and %s differ: %s", vlib.Q(q), vlib.Q(q2), why),
+					Witness: map[string]interface{}{"case": cs, "a": refs[0], "b": b}})
+			case "inconclusive":
+				ctx.R.Inconcl("cli reference unstable")
+			}
+		}
 		for qi := 0; qi < ctx.Pick(6, 8); qi++ {
 			qkind := []int{0, 2, 2}[r.Intn(3)]
 			q := vlib.GenQuery(r, words, 1+r.Intn(3), qkind)
@@ -347,72 +414,36 @@ func engineCaseInvCLI(ctx *Ctx) {
 				continue
 			}
 			limit := []int{1, 3, 5, 20}[r.Intn(4)]
-			mk := func(query string) []string {
-				return []string{"--database", dbp, "--format", "json", "-v", "--no-color", "--limit", fmt.Sprint(limit), "--all-platforms", "--", query}
-			}
-			cs := map[string]interface{}{"db_entries": len(cmds), "query": q, "variant": q2, "kind": kind, "limit": limit, "env": locEnv}
-			ctx.R.Begin(cs)
-			ctx.R.Eval(1)
-			rank := func(query string) (vlib.Ranked, string, bool) {
-				res := h.Wtf(ctx.Wtf, locEnv, mk(query)...)
-				if bad, why := res.Crashed(); bad {
-					ctx.R.Violate(vlib.Violation{Property: "C20", Clause: "crash", Path: "cli", Detail: why, Witness: cs})
-					return nil, "", false
-				}
-				block, items, present, wf := JSONBlock(res.Stdout)
-				if present && !wf {
-					return nil, block, false
-				}
-				rk := vlib.Ranked{}
-				for _, it := range items {
-					i, ok := idx[it.Command]
-					if !ok {
-						i = -1
-					}
-					rk = append(rk, vlib.Item{Idx: i, Score: it.Score})
-				}
-				return rk, block, true
-			}
-			var refs []vlib.Ranked
-			stable := true
-			okAll := true
-			for i := 0; i < 3; i++ {
-				a, _, ok := rank(q)
-				if !ok {
-					okAll = false
-					break
-				}
-				if i > 0 && !vlib.Exact(refs[0], a) {
-					stable = false
-				}
-				refs = append(refs, a)
-			}
-			if !okAll {
-				continue
-			}
-			b, _, ok := rank(q2)
-			if !ok {
-				continue
-			}
-			if len(refs[0]) > 0 {
-				ctx.R.Nontriv("cli", d, q, q2, limit)
-				ctx.R.Path("cli-pairs-nonempty", 1)
-				if kind != "case" {
-					ctx.R.Path("cli-pairs-blanks", 1)
-				}
-			} else {
-				ctx.R.Path("cli-pairs-empty", 1)
-			}
-			verdict, why := vlib.CompareToRef(refs, stable, b, limit)
-			switch verdict {
-			case "violated":
-				ctx.R.Violate(vlib.Violation{Property: "C20", Clause: "cli-variant-changes-output", Path: "cli/" + kind,
-					Detail:  fmt.Sprintf("result blocks for %s and %s differ: %s", vlib.Q(q), vlib.Q(q2), why),
-					Witness: map[string]interface{}{"case": cs, "a": refs[0], "b": b}})
-			case "inconclusive":
-				ctx.R.Inconcl("cli reference unstable")
-			}
+			comparePair(q, q2, kind, limit)
 		}
+		// blanks that are not ASCII (no-break space, ideographic space, the fixed-width spaces an editor or an input method
+		// leaves behind) next to an ordinary blank or at the ends: still only leading, trailing or repeated whitespace. Drawn from a
+		// stream of their own; every other pair is a misspelt request, which is answered from the query text as a whole.
+		r2 := vlib.NewRand(ctx.Seed, ctx.G(d), "caseinv-cli-wide-blanks")
+		for qi := 0; qi < 3; qi++ {
+			qkind := []int{2, 0, 2}[qi]
+			q := vlib.GenQuery(r2, words, 2+r2.Intn(2), qkind)
+			f := strings.Fields(q)
+			if len(f) < 2 {
+				continue
+			}
+			q = strings.Join(f, " ")
+			wide := []string{"\u00a0", "\u3000", "\u2003", "\u2009", "\u202f", "\u1680", "\u205f", "\u2002"}[r2.Intn(8)]
+			var q2 string
+			switch r2.Intn(4) {
+			case 0:
+				q2 = strings.Join(f, " "+wide)
+			case 1:
+				q2 = strings.Join(f, wide+" ")
+			case 2:
+				q2 = wide + strings.Join(f, " "+wide+" ") + wide
+			default:
+				q2 = wide + " " + q + " " + wide
+			}
+			ctx.R.Path("cli-pairs-with-non-ascii-blanks", 1)
+			comparePair(q, q2, "wide-blanks", []int{3, 5, 20}[r2.Intn(3)])
+		}
+		_ = comparePair
 		// the other command that takes a query: `wtf pipeline <query>` (what it prints below the line that repeats the query)
 		for qi := 0; qi < ctx.Pick(6, 8); qi++ {
 			q := vlib.GenQuery(r, words, 2+r.Intn(3), 0)
